@@ -244,6 +244,47 @@ theorem c02_tool_pathway_refines (T : Tables) (env : Env) (hT : TablesSound T) (
     · exact hfail
     · rw [heq]; exact hf
 
+/-- Nothing of a tool call is dropped or merged: when the tool pathway succeeds, the registered tool ran with exactly
+    the values of the positional arguments, in order, and with exactly one keyword argument per keyword written, under
+    the name written, in the order written (`dictOf`, the `kwargs[kw.arg] = …` loop, is the identity here because a text
+    repeating a keyword never gets this far), and the result of that one call is the value reported. -/
+theorem c02_tool_receives_arguments_as_written (T : Tables) (env : Env) (tools : List ToolReg)
+    (allowed : Option (List String)) (e : Expr) (v : Val) (h : (toolPathway T env tools allowed e).2 = .ok v) :
+    ∃ tn args kn kv as ks, e = .call (.name tn) args kn kv ∧ (walkList T env args).2 = .ok as ∧
+      (walkKws T env kn kv).2 = .ok ks ∧ dictOf ks = ks ∧ env.tool tn as ks = .ok v ∧
+      Act.tool tn as ks ∈ (toolPathway T env tools allowed e).1 := by
+  unfold toolPathway at h ⊢
+  split at h
+  · simp [R.fail] at h
+  · rename_i hdup
+    rw [if_neg hdup]
+    unfold toolPath at h ⊢
+    split at h
+    · rename_i tn args kn kv
+      have hk : hasDupKw kn = false := by
+        simp only [dupAnywhere, Bool.or_eq_true, not_or, Bool.not_eq_true] at hdup
+        exact hdup.1.1.1
+      split at h
+      · simp [R.fail] at h
+      · rename_i t ht
+        split at h
+        · rename_i hcaps
+          rcases h1 : walkList T env args with ⟨t1, r1⟩
+          cases r1 with
+          | error er => simp [R.bind, h1] at h
+          | ok as =>
+            rcases h2 : walkKws T env kn kv with ⟨t2, r2⟩
+            cases r2 with
+            | error er => simp [R.bind, h1, h2] at h
+            | ok ks =>
+              have hd : dictOf ks = ks := dictOf_nodup ks (walkKws_nodup T env kv kn t2 ks h2 hk)
+              simp only [R.bind, R.act, h1, h2, hd] at h
+              refine ⟨tn, args, kn, kv, as, ks, rfl, by rw [h1], by rw [h2], hd, h, ?_⟩
+              simp [ht, hcaps, R.bind, R.act, h1, h2, hd]
+        · simp [R.fail] at h
+    · simp [R.fail] at h
+    · simp [R.fail] at h
+
 /-- … at the entry point: a success result of `metabolize` on the tool pathway (forced or auto-detected by the tool-name
     prefix) carries the value of Python's evaluation of the tool call, with exactly its interactions. -/
 theorem c02_entry_point_tool_refines (T : Tables) (env : Env) (hT : TablesSound T) (hc : CmpReturnsBool env) (cfg : Cfg)
